@@ -10,6 +10,14 @@ package checks
 // without encryption, and the clear fields of a field-level configuration) must be FOUND by the
 // same scanner, otherwise the case is inconclusive.  Receivers: key-less (nothing of the secrets
 // anywhere in the store), key-holding (reads back exactly what the writer reads) and partial.
+//
+// Heads of mixed encryption: a field DAG of the key-holding writer gets a clear head next to its
+// encrypted one without any fault, (a) when a twin node creates the very same document (docIDs are
+// content derived) without encryption and its commits are merged into the writer, (b) when a peer
+// that never obtained the key of an individually encrypted field writes that field itself and its
+// commit is merged back. After such a merge the writer updates the encrypted fields with fresh
+// secrets, which must stay out of /db/blocks and the update events like all others. Values written
+// by the clear-origin node are public tokens: they are not secrets and are not searched for.
 
 import (
 	"bytes"
@@ -72,6 +80,26 @@ type c11Params struct {
 	DeliverAfter []int `json:"deliver_after,omitempty"`
 	// ReceiverUpdate: after the last delivery a key-holding receiver ("keys-store") updates these fields itself.
 	ReceiverUpdate []string `json:"receiver_update,omitempty"`
+	// Mixed: after everything else, clear-origin commits are merged into the writer and the writer updates again.
+	Mixed *c11Mixed `json:"mixed,omitempty"`
+}
+
+// c11Mixed describes how heads without encryption get next to the writer's encrypted heads.
+type c11Mixed struct {
+	// Via: "twin" (a node T creates the very same document - same values, same docID - without any encryption)
+	// | "keyless-write" (the key-less / partial receiver B writes encrypted fields it holds no key for).
+	Via    string          `json:"via"`
+	Rounds []c11MixedRound `json:"rounds"`
+}
+
+type c11MixedRound struct {
+	// Clear: fields the clear-origin node writes with public tokens before its head is merged into the writer
+	// (twin, first round: in addition to its create).
+	Clear []string `json:"clear,omitempty"`
+	// Writer: fields the writer A updates with fresh secrets after the merge (the register fields of Clear are always added).
+	Writer []string `json:"writer,omitempty"`
+	// WriterAll: A also updates every field it has written so far.
+	WriterAll bool `json:"writer_all,omitempty"`
 }
 
 func (p c11Params) encrypted(field string) bool {
@@ -132,12 +160,36 @@ func c11Anchors() []core.Case {
 			Ops: []c11Op{{Set: []string{"t", "pc"}}, {Set: []string{"s", "t"}}}, Receiver: "keyless"}),
 		mk("branchable-fields-keys-store", c11Params{Branchable: true, Mode: "fields", EncFields: []string{"s", "pc"}, Create: all,
 			Ops: []c11Op{{Set: []string{"s", "pc", "t"}}, {Set: []string{"s", "pc"}}}, Receiver: "keys-store", ReceiverUpdate: []string{"s", "pc", "t"}}),
+		// heads of mixed encryption (a): the same document is created without encryption on a twin node and merged into the writer
+		mk("doc-twin-created-in-clear-merged-writer-updates", c11Params{Mode: "doc", Create: all,
+			Ops: []c11Op{{Set: []string{"s", "pc"}}}, Receiver: "keyless",
+			Mixed: &c11Mixed{Via: "twin", Rounds: []c11MixedRound{{WriterAll: true}, {Clear: all, WriterAll: true}, {Clear: []string{"name", "s", "i", "pf"}, Writer: []string{"t", "j"}}}}}),
+		mk("fields-twin-created-in-clear-merged-writer-updates", c11Params{Mode: "fields", EncFields: []string{"name", "s", "f", "pc"}, Create: all,
+			Ops: []c11Op{{Set: []string{"f", "t"}}}, Receiver: "keys-event",
+			Mixed: &c11Mixed{Via: "twin", Rounds: []c11MixedRound{{Clear: []string{"s", "t"}, WriterAll: true}, {Clear: []string{"name", "s", "f", "pc", "i"}, WriterAll: true}}}}),
+		mk("both-twin-created-in-clear-merged-writer-updates", c11Params{Mode: "both", EncFields: []string{"s", "pf"}, Create: []string{"s", "t", "i", "pf"},
+			Ops: []c11Op{{Set: []string{"s", "f"}}}, Receiver: "keys-store",
+			Mixed: &c11Mixed{Via: "twin", Rounds: []c11MixedRound{{WriterAll: true}, {Clear: []string{"s", "t", "i", "f", "pf"}, WriterAll: true}}}}),
+		// document-level encryption, a field the writer has not written yet is written by the twin node: the writer's first write of it finds only clear heads
+		mk("doc-twin-writes-field-absent-on-writer-writer-writes-it", c11Params{Mode: "doc", Create: []string{"s"},
+			Ops: []c11Op{{Set: []string{"s"}}}, Receiver: "keyless",
+			Mixed: &c11Mixed{Via: "twin", Rounds: []c11MixedRound{{Clear: []string{"t"}, Writer: []string{"t"}}}}}),
+		// heads of mixed encryption (b): a peer without the field keys writes the encrypted fields itself, the writer merges that
+		mk("fields-keyless-peer-writes-encrypted-fields-writer-updates", c11Params{Mode: "fields", EncFields: []string{"s", "i", "j", "pc"}, Create: all,
+			Ops: []c11Op{{Set: []string{"s", "pc", "t"}}}, Receiver: "keyless",
+			Mixed: &c11Mixed{Via: "keyless-write", Rounds: []c11MixedRound{{Clear: []string{"s", "i", "j", "pc"}}, {Clear: []string{"s", "i", "j", "pc", "t"}, Writer: []string{"f"}},
+				{Clear: []string{"s", "pc"}, WriterAll: true}}}}),
+		mk("fields-partial-peer-writes-fields-without-key-writer-updates", c11Params{Mode: "fields", EncFields: []string{"s", "t", "f", "pf"}, Create: all,
+			Ops: []c11Op{{Set: []string{"t", "f"}}}, Receiver: "partial", PartialKeys: []string{"s", "f"},
+			Mixed: &c11Mixed{Via: "keyless-write", Rounds: []c11MixedRound{{Clear: []string{"t", "pf", "i"}, Writer: []string{"s"}}, {Clear: []string{"t", "pf"}, WriterAll: true}}}}),
 	}
 }
 
 func c11Cases(seed uint64, tier string) []core.Case {
 	cs := c11Anchors()
 	rng := rand.New(rand.NewPCG(seed, 1111))
+	// the mixed-heads extension draws from its own stream: the histories generated before it existed stay the same
+	rng2 := rand.New(rand.NewPCG(seed, 1112))
 	n := tierN(tier, 200, 5000)
 	others := []string{"s", "t", "i", "f", "j", "pc", "pf"}
 	registers := []string{"s", "t", "i", "f", "j"}
@@ -217,9 +269,72 @@ func c11Cases(seed uint64, tier string) []core.Case {
 			p.Receiver = "partial"
 			p.PartialKeys = p.EncFields[:1+rng.IntN(len(p.EncFields)-1)]
 		}
-		cs = append(cs, core.MkCase("enc/"+p.Mode+"/"+p.Receiver, rng.Uint64(), p))
+		kind := "enc/" + p.Mode + "/" + p.Receiver
+		if p.Mixed = c11GenMixed(rng2, p); p.Mixed != nil {
+			kind += "+" + p.Mixed.Via
+		}
+		cs = append(cs, core.MkCase(kind, rng.Uint64(), p))
 	}
 	return cs
+}
+
+// c11GenMixed decides whether (and how) a generated history ends with rounds of
+// "clear-origin commits merged into the writer, writer updates encrypted fields".
+func c11GenMixed(rng *rand.Rand, p c11Params) *c11Mixed {
+	pick := func(from []string, pr float64) []string {
+		out := []string{}
+		for _, f := range from {
+			if rng.Float64() < pr {
+				out = append(out, f)
+			}
+		}
+		return out
+	}
+	// fields a key-less / partial receiver can write in clear: encrypted ones it holds no key for, and clear ones
+	noKey, clear := []string{}, []string{}
+	if p.Mode == "fields" && (p.Receiver == "keyless" || p.Receiver == "partial") {
+		for _, f := range c11Fields {
+			held := false
+			for _, g := range p.PartialKeys {
+				held = held || (p.Receiver == "partial" && g == f)
+			}
+			switch {
+			case !p.encrypted(f):
+				clear = append(clear, f)
+			case !held:
+				noKey = append(noKey, f)
+			}
+		}
+	}
+	via := ""
+	switch r := rng.IntN(20); {
+	case len(noKey) > 0 && r < 10:
+		via = "keyless-write"
+	case len(noKey) > 0 && r < 15, len(noKey) == 0 && r < 8:
+		via = "twin"
+	default:
+		return nil
+	}
+	m := &c11Mixed{Via: via}
+	rounds := 1 + rng.IntN(3)
+	for k := 0; k < rounds; k++ {
+		rd := c11MixedRound{}
+		if via == "twin" {
+			rd.Clear = pick(c11Fields, 0.4)
+			if k > 0 && len(rd.Clear) == 0 {
+				rd.Clear = []string{c11Fields[rng.IntN(len(c11Fields))]}
+			}
+		} else {
+			rd.Clear = append(pick(noKey, 0.7), pick(clear, 0.3)...)
+			if len(rd.Clear) == 0 {
+				rd.Clear = []string{noKey[rng.IntN(len(noKey))]}
+			}
+		}
+		rd.Writer = pick(c11Fields, 0.3)
+		rd.WriterAll = rng.IntN(2) == 0
+		m.Rounds = append(m.Rounds, rd)
+	}
+	return m
 }
 
 // ---------------------------------------------------------------------------------------
@@ -243,6 +358,34 @@ type c11Secret struct {
 	Needles []c11Needle
 	Control bool   // written in clear on purpose: must be found
 	Node    string // "A" | "B" (who wrote it)
+	// Public: not (or no longer) a secret - written by a node that holds no key of the field (clear-origin
+	// writes), or a create value of the writer that the twin node has written in clear as well. Never searched for.
+	Public bool
+	// Heads: what the head set of the field looked like on the writer when the value was written, if remarkable:
+	// "mixed-heads" (encrypted and clear heads; signature part "written-on-mixed-heads") | "only-foreign-clear-heads" (document-level encryption, the writer's
+	// first write of the field, all heads are clear blocks merged from elsewhere). Part of the signature.
+	Heads     string
+	HeadsSeen []c11Head `json:"-"`
+}
+
+// sigMode: the encryption level named in a signature. A first write that found only foreign clear heads misses the
+// key of the document whether or not other fields have keys of their own ("both" is "doc" there).
+func (x *c11Run) sigMode(s *c11Secret) string {
+	if s.Heads == "only-foreign-clear-heads" {
+		return "doc"
+	}
+	return x.p.Mode
+}
+
+func (s *c11Secret) sigOrigin() string {
+	if s.Heads == "mixed-heads" {
+		// how the field started does not matter to what is inherited from heads of mixed encryption
+		return "written-on-mixed-heads"
+	}
+	if s.Heads != "" {
+		return s.Origin + "/" + s.Heads
+	}
+	return s.Origin
 }
 
 func cborUint(n uint64) []byte {
@@ -376,6 +519,13 @@ type c11Run struct {
 	nullAtCreate map[string]bool
 	flagged map[string]bool
 	ctlMiss bool
+	// unknown: register fields whose value on the writer is decided by a tie-break the model does not
+	// follow (a clear-origin write was merged and the writer has not written the field since)
+	unknown map[string]bool
+	// foreignStart: the writer's first write of the field found only clear heads merged from elsewhere
+	foreignStart map[string]bool
+	// mixedOnce: the writer has written the field while its heads were of mixed encryption
+	mixedOnce map[string]bool
 }
 
 func (x *c11Run) logf(f string, a ...any) { x.log = append(x.log, fmt.Sprintf(f, a...)) }
@@ -425,8 +575,223 @@ func (x *c11Run) applyModel(field string, v any) {
 		x.model[field] = cur + v.(float64)
 	default:
 		x.model[field] = v
+		delete(x.unknown, field)
 	}
 	x.written[field] = true
+}
+
+// addForeign records in the model a value that another node wrote and the writer merged:
+// counter increments add up, a register is undecided until the writer writes it again.
+func (x *c11Run) addForeign(field string, v any) {
+	switch c11Kind[field] {
+	case "counter-int":
+		cur, _ := x.model[field].(int64)
+		x.model[field] = cur + v.(int64)
+	case "counter-float":
+		cur, _ := x.model[field].(float64)
+		x.model[field] = cur + v.(float64)
+	default:
+		x.unknown[field] = true
+	}
+}
+
+// c11Head is one head of a field DAG as found in the head store.
+type c11Head struct {
+	Cid       string `json:"cid"`
+	Encrypted bool   `json:"encrypted"`
+	Priority  uint64 `json:"priority"`
+}
+
+// fieldHeads lists, per field name, the heads of the monitored document on node n in the order in which
+// the head set lists them (ascending cid bytes), with the encryption of each head block.
+func (x *c11Run) fieldHeads(n *core.Node) map[string][]c11Head {
+	type entry struct {
+		raw []byte
+		h   c11Head
+	}
+	tmp := map[string][]entry{}
+	for k := range n.RawScan(x.ctx, "/db/heads/d/"+x.docID+"/") {
+		parts := strings.Split(k, "/")
+		if len(parts) < 2 || parts[len(parts)-2] == "C" {
+			continue
+		}
+		c := core.ParseCid(parts[len(parts)-1])
+		blk, _, err := n.GetBlock(x.ctx, c)
+		core.Must(err)
+		f := blk.Delta.GetFieldName()
+		tmp[f] = append(tmp[f], entry{c.Bytes(), c11Head{Cid: c.String(), Encrypted: blk.Encryption != nil, Priority: blk.Delta.GetPriority()}})
+	}
+	out := map[string][]c11Head{}
+	for f, es := range tmp {
+		sort.Slice(es, func(i, j int) bool { return bytes.Compare(es[i].raw, es[j].raw) < 0 })
+		for _, e := range es {
+			out[f] = append(out[f], e.h)
+		}
+	}
+	return out
+}
+
+// runMixed: commits of clear origin are merged into the key-holding writer A, which then updates
+// encrypted fields with fresh secrets (see c11Mixed). b is the receiver of the history, createVals what A created the document with.
+func (x *c11Run) runMixed(b *core.Node, hasKey func(string) bool, createVals map[string]any, readback func()) (pattern string, updatedEncrypted bool) {
+	ctx, r, m, a := x.ctx, x.r, x.p.Mixed, x.a
+	src, who := b, "B"
+	if m.Via == "twin" {
+		t := core.NewNode(ctx, core.NodeOpts{})
+		defer t.Close()
+		_, err := t.DB.AddSchema(ctx, c11SDL(x.p.Branchable))
+		core.Must(err)
+		var tid string
+		if x.p.CreateAPI == "gql" {
+			tid, err = x.gqlCreate(t, createVals, false)
+		} else {
+			col := t.Col(ctx, "U")
+			doc, derr := client.NewDocFromMap(createVals, col.Definition())
+			core.Must(derr)
+			tid = doc.ID().String()
+			err = col.Create(ctx, doc)
+		}
+		core.Must(err)
+		x.logf("T: twin node creates the same document without encryption: %s", tid)
+		if tid != x.docID {
+			r.Note("twin_docid_differs")
+			return "twin-docid-differs", false
+		}
+		// what A wrote at create is now written in clear by someone else: no longer a secret
+		for _, s := range x.secrets {
+			if s.Node == "A" && s.Op < 0 && !s.Control {
+				s.Public = true
+			}
+		}
+		// What the sum of a counter is after the twin's create has been merged is not a matter of this property
+		// (a counter delta written at create carries no nonce: T's clear block is byte-identical to A's where the
+		// field is clear, and another block where A holds the encrypted image only; whether the merge counts it
+		// again depends on how it is reached): the writer's read-back of those counters is not compared any more.
+		for f, v := range createVals {
+			if c11CRDT(f) == "counter" && v != nil {
+				x.unknown[f] = true
+			}
+		}
+		r.Count("twin_documents", 1)
+		src, who = t, "T"
+	}
+	for ri, rd := range m.Rounds {
+		stage := fmt.Sprintf("mixed round %d", ri)
+		// 1. writes of clear origin (public tokens)
+		vals := map[string]any{}
+		clear := []string{}
+		for _, f := range rd.Clear {
+			if m.Via == "keyless-write" && x.p.encrypted(f) && hasKey(f) {
+				continue // B would write this one as a key holder
+			}
+			v, desc, nd := x.g.value(f)
+			vals[f] = v
+			clear = append(clear, f)
+			x.secrets = append(x.secrets, &c11Secret{Field: f, Kind: c11Kind[f], Value: v, Desc: desc, When: "clear-origin-write", Op: len(x.p.Ops) + 1 + ri, Needles: nd, Node: who, Public: true})
+		}
+		if len(clear) > 0 {
+			err := colUpdate(ctx, src, x.docID, vals)
+			x.logf("%s: %s: update set=%v with public tokens (node without keys) err=%v", who, stage, clear, err)
+			if err != nil {
+				// e.g. the document is not visible at all on the key-less receiver
+				r.Note("clear_origin_write_failed")
+				return pattern + "|clear-write-failed", updatedEncrypted
+			}
+			r.Count("clear_origin_writes", 1)
+		}
+		// 2. the writer merges the clear-origin head
+		heads := src.CompositeHeads(ctx, x.docID)
+		if len(heads) != 1 {
+			x.logf("%s has %d composite heads", who, len(heads))
+			r.Note("clear_origin_node_without_single_head")
+			return pattern + "|no-single-head", updatedEncrypted
+		}
+		head := core.ParseCid(heads[0])
+		nb := core.CopyClosure(ctx, src, a, head)
+		merr := a.Merge(ctx, x.docID, head, x.colID)
+		x.logf("%s: deliver %s head %s (closure %d blocks) -> A: merge err=%v", stage, who, head, nb, merr)
+		if merr != nil {
+			x.violate("receiver/merge-error/writer-takes-clear-origin-commit/"+m.Via, fmt.Sprintf("merging the commits of a node without keys (%s) on the key-holding writer fails: %v", m.Via, merr), nil)
+			return pattern + "|merge-error", updatedEncrypted
+		}
+		for _, f := range clear {
+			x.addForeign(f, vals[f])
+		}
+		x.scanWriter(a, x.rec, "A", stage+": after merging the clear-origin commits")
+		// 3. the writer updates
+		want := map[string]bool{}
+		for _, f := range rd.Writer {
+			want[f] = true
+		}
+		fields := []string{}
+		for _, f := range c11Fields {
+			if want[f] || (rd.WriterAll && x.written[f]) {
+				fields = append(fields, f)
+			}
+		}
+		pattern += fmt.Sprintf("|%v>%v", clear, fields)
+		if len(fields) == 0 {
+			continue
+		}
+		hs := x.fieldHeads(a)
+		wvals, ss := x.setArgs(c11Op{Set: fields}, len(x.p.Ops)+1+ri, "doc", "A")
+		for _, s := range ss {
+			if s.Control {
+				continue
+			}
+			h := hs[s.Field]
+			nEnc, nClear := 0, 0
+			for _, e := range h {
+				if e.Encrypted {
+					nEnc++
+				} else {
+					nClear++
+				}
+			}
+			s.HeadsSeen = h
+			switch {
+			case nEnc == 0 && nClear > 0 && x.mixedOnce[s.Field]:
+				// the field had heads of mixed encryption when the writer wrote it before, and that write has left clear heads only:
+				// this write follows it
+				s.Heads = "mixed-heads"
+				r.Count("writes_following_a_clear_write_on_mixed_heads", 1)
+			case nEnc > 0 && nClear > 0:
+				s.Heads = "mixed-heads"
+				x.mixedOnce[s.Field] = true
+				r.Count("mixed_heads_writer_updates", 1)
+				r.Count("mixed_heads_writer_updates_via_"+m.Via, 1)
+				r.Count("mixed_heads_writer_updates_"+c11CRDT(s.Field), 1)
+				if !h[0].Encrypted {
+					r.Count("mixed_heads_clear_head_sorts_first", 1)
+				}
+				if len(h) > 2 {
+					r.Count("mixed_heads_three_or_more_heads", 1)
+				}
+			case nEnc == 0 && nClear > 0 && x.p.Mode != "fields" && (s.When == "first-write-by-update" || x.foreignStart[s.Field]):
+				// document-level encryption: the writer's first write of a field whose only blocks were merged from a node
+				// without encryption (and the writer's later writes of that field, which follow its first one)
+				s.Heads = "only-foreign-clear-heads"
+				x.foreignStart[s.Field] = true
+				r.Count("writes_on_only_foreign_clear_heads", 1)
+			}
+		}
+		err := colUpdate(ctx, a, x.docID, wvals)
+		x.logf("A: %s: update set=%v with fresh secrets err=%v", stage, fields, err)
+		core.Must(err)
+		for _, s := range ss {
+			if !s.Control {
+				updatedEncrypted = true
+				r.Count("updates_of_encrypted_fields", 1)
+				if s.When == "first-write-by-update" {
+					r.Count("first_write_by_update_"+x.p.Mode+"_level", 1)
+				}
+			}
+			x.applyModel(s.Field, s.Value)
+		}
+		x.scanWriter(a, x.rec, "A", stage+": after the writer's update")
+		readback()
+	}
+	return pattern, updatedEncrypted
 }
 
 func c11Find(hay map[string]string, needle []byte, keysToo bool) (string, bool) {
@@ -488,18 +853,24 @@ func (x *c11Run) scanWriter(n *core.Node, rec *core.BusRecorder, who string, sta
 			}
 			continue
 		}
+		if s.Public {
+			continue
+		}
 		x.r.Count("secret_searches", 1)
+		if s.Heads == "mixed-heads" {
+			x.r.Count("secret_searches_written_on_mixed_heads", 1)
+		}
 		for _, nd := range s.Needles {
 			if k, ok := c11Find(blocks, nd.Bytes, false); ok {
 				s.Leaked = true
-				x.violate(fmt.Sprintf("plaintext/blocks/%s-level/%s", x.p.Mode, s.Origin),
+				x.violate(fmt.Sprintf("plaintext/blocks/%s-level/%s", x.sigMode(s), s.sigOrigin()),
 					fmt.Sprintf("%s-level encryption: the %s image of the %s value written to encrypted %s field %q by the %s (op %d, node %s; %s) occurs in clear in a value under /db/blocks of node %s (%s)",
-						x.p.Mode, nd.What, s.Kind, c11CRDT(s.Field), s.Field, s.When, s.Op, s.Node, s.Origin, who, stage),
-					map[string]any{"secret": s.Desc, "field": s.Field, "image": nd.What, "store_key": k, "block": describeBlock(blocks[k])})
+						x.p.Mode, nd.What, s.Kind, c11CRDT(s.Field), s.Field, s.When, s.Op, s.Node, s.sigOrigin(), who, stage),
+					map[string]any{"secret": s.Desc, "field": s.Field, "image": nd.What, "store_key": k, "block": describeBlock(blocks[k]), "heads_when_written": s.HeadsSeen})
 			}
 			if k, ok := c11Find(evs, nd.Bytes, false); ok {
 				s.Leaked = true
-				x.violate(fmt.Sprintf("plaintext/update-event/%s-level/%s", x.p.Mode, s.Origin),
+				x.violate(fmt.Sprintf("plaintext/update-event/%s-level/%s", x.sigMode(s), s.sigOrigin()),
 					fmt.Sprintf("the %s image of the value written to encrypted field %q occurs in clear in the Block bytes of an update event of node %s (%s)", nd.What, s.Field, who, stage),
 					map[string]any{"secret": s.Desc, "field": s.Field, "event": k})
 			}
@@ -747,7 +1118,7 @@ func (k *c11KeyServer) close() { k.bus.Unsubscribe(k.sub) }
 func runC11(ctx context.Context, c core.Case, r *core.Rec) {
 	var p c11Params
 	c.P(&p)
-	x := &c11Run{ctx: ctx, p: p, r: r, g: c11Gen{c.Rng()}, model: map[string]any{}, written: map[string]bool{}, late: map[string]bool{}, nullAtCreate: map[string]bool{}, flagged: map[string]bool{}}
+	x := &c11Run{ctx: ctx, p: p, r: r, g: c11Gen{c.Rng()}, model: map[string]any{}, written: map[string]bool{}, late: map[string]bool{}, nullAtCreate: map[string]bool{}, flagged: map[string]bool{}, unknown: map[string]bool{}, foreignStart: map[string]bool{}, mixedOnce: map[string]bool{}}
 	a := core.NewNode(ctx, core.NodeOpts{})
 	defer a.Close()
 	x.a = a
@@ -774,6 +1145,7 @@ func runC11(ctx context.Context, c core.Case, r *core.Rec) {
 		createFields = c11NoInts(createFields)
 	}
 	vals, ss := x.setArgs(c11Op{Set: createFields}, -1, "doc", "A")
+	createVals := vals
 	if p.CreateAPI != "gql" {
 		for _, f := range p.NullAtCreate {
 			vals[f] = nil
@@ -952,7 +1324,7 @@ func runC11(ctx context.Context, c core.Case, r *core.Rec) {
 		all := b.RawScan(ctx, "")
 		keyless := 0
 		for _, s := range x.secrets {
-			if s.Control || s.Node != "A" || hasKey(s.Field) {
+			if s.Control || s.Public || s.Node != "A" || hasKey(s.Field) {
 				continue
 			}
 			if s.Leaked {
@@ -1001,6 +1373,20 @@ func runC11(ctx context.Context, c core.Case, r *core.Rec) {
 	}
 	nontrivial := false
 	pattern := []string{}
+	writerReadback := func() {
+		got, err := c11Read(ctx, a, x.docID)
+		core.Must(err)
+		for _, f := range c11Fields {
+			if !x.written[f] || x.unknown[f] {
+				continue
+			}
+			r.Count("writer_fields_compared", 1)
+			if got == nil || !sameValue(c11Kind[f], x.model[f], got[f]) {
+				x.violate(fmt.Sprintf("readback/writer/%s", c11CRDT(f)),
+					fmt.Sprintf("the writing node reads %s = %v after writing %v (%s-level encryption)", f, got[f], x.model[f], p.Mode), map[string]any{"read": got, "model": x.model})
+			}
+		}
+	}
 	for i, op := range p.Ops {
 		vals, ss := x.setArgs(op, i, "doc", "A")
 		var err error
@@ -1045,18 +1431,7 @@ func runC11(ctx context.Context, c core.Case, r *core.Rec) {
 		pattern = append(pattern, strings.Join(op.Set, ",")+"/"+strings.Join(op.Null, ","))
 		x.scanWriter(a, x.rec, "A", fmt.Sprintf("after op %d", i))
 		// the writer itself holds the keys: reads back exactly the written values
-		got, err := c11Read(ctx, a, x.docID)
-		core.Must(err)
-		for _, f := range c11Fields {
-			if !x.written[f] {
-				continue
-			}
-			r.Count("writer_fields_compared", 1)
-			if got == nil || !sameValue(c11Kind[f], x.model[f], got[f]) {
-				x.violate(fmt.Sprintf("readback/writer/%s", c11CRDT(f)),
-					fmt.Sprintf("the writing node reads %s = %v after writing %v (%s-level encryption)", f, got[f], x.model[f], p.Mode), map[string]any{"read": got, "model": x.model})
-			}
-		}
+		writerReadback()
 		if deliverAfter[i] && i < len(p.Ops)-1 {
 			deliver(fmt.Sprintf("after op %d", i))
 		}
@@ -1095,9 +1470,19 @@ func runC11(ctx context.Context, c core.Case, r *core.Rec) {
 						}
 					}
 					x.scanWriter(a, x.rec, "A", "after merging the receiver's update")
+					for _, s := range ss {
+						x.addForeign(s.Field, s.Value)
+					}
 				}
 			}
 		}
+	}
+
+	// commits of clear origin reach the writer, which goes on updating its encrypted fields
+	if p.Mixed != nil {
+		mp, upd := x.runMixed(b, hasKey, createVals, writerReadback)
+		pattern = append(pattern, p.Mixed.Via+mp)
+		nontrivial = nontrivial || upd
 	}
 
 	if x.ctlMiss {
@@ -1125,16 +1510,20 @@ func runC11(ctx context.Context, c core.Case, r *core.Rec) {
 func init() {
 	core.Register(&core.Check{
 		ID: "C11", Level: "exploration",
-		Rule: "8 anchor histories + generated histories on a writer node (document-level encryption or a subset of <=4 encrypted fields, branchable or not, creates omitting fields, " +
+		Rule: "17 anchor histories + generated histories on a writer node (document-level encryption or a subset of <=4 encrypted fields, branchable or not, creates omitting fields, " +
 			"1-5 updates via collection API or GraphQL touching encrypted and clear registers and counters, fields first written by an update, nulling and re-setting) with one receiver " +
-			"(key-less / keys via enc-keys-request / keys in its key store / partial keys; optional updates by the key-holding receiver). Every written value is a unique token; after every operation " +
+			"(key-less / keys via enc-keys-request / keys in its key store / partial keys; optional updates by the key-holding receiver); about half of the histories end with 1-3 rounds of " +
+			"'commits of clear origin (a twin node that created the same document without encryption, or the key-less/partial receiver writing fields it has no key for, with public tokens) are merged into the writer, " +
+			"the writer updates encrypted fields - now with heads of mixed encryption - with fresh secrets'. Every written value is a unique token; after every operation " +
 			"all values under /db/blocks and all update-event Block bytes are byte-searched for every image of every secret. non-trivial = >=1 update of an encrypted field after create; " +
-			"distinct by (mode, encrypted fields, branchable, fields absent at create, update pattern, receiver).",
+			"distinct by (mode, encrypted fields, branchable, fields absent at create, update pattern incl. the mixed-heads rounds, receiver).",
 		Cases: c11Cases,
 		Run:   runC11,
 		Floors: []string{"control_ok", "encrypted_field_explicitly_null_at_create", "control_found_string", "control_found_int", "control_found_float", "control_found_json", "control_found_counter-int", "control_found_counter-float",
 			"first_write_by_update_doc_level", "receiver_keyless", "receiver_key_holding", "receiver_partial_keys", "keys_checked", "updates_of_encrypted_fields",
-			"event_blocks_scanned", "receiver_updates", "nontrivial_histories"},
+			"event_blocks_scanned", "receiver_updates", "nontrivial_histories",
+			"mixed_heads_writer_updates", "mixed_heads_writer_updates_via_twin", "mixed_heads_writer_updates_via_keyless-write", "mixed_heads_clear_head_sorts_first",
+			"mixed_heads_writer_updates_lww", "mixed_heads_writer_updates_counter", "secret_searches_written_on_mixed_heads"},
 		CaseTimeout: 10 * time.Minute, // a case is < 1 s of work; the watchdog must not fire because the machine is loaded
 		PostProcess: func(sup *core.Supervisor, m *core.Rec) {
 			// the positive control must have been found in every case, else the scanner is blind somewhere
@@ -1148,6 +1537,7 @@ func init() {
 			"'the store that is shared with peers' = every value under /db/blocks; 'handed to the network layer' = Block bytes of update events",
 			"plaintext images searched: raw UTF-8 of string tokens, CBOR uint64/float64 images and decimal text of numeric tokens, compact JSON text and member tokens of JSON values",
 			"delivery to the receiver = block-closure copy + hook H1 VerifMerge; the harness plays the key-management service on the receiver's event bus",
+			"values written by a node that holds no key of the field (twin node, key-less receiver) are public tokens, and the create values of the writer stop being secrets once the twin node has written the same document in clear: neither is searched for",
 		},
 	})
 }
